@@ -230,10 +230,22 @@ export function splitProgram(prog, rng, { collide = false } = {}) {
     texts[f] = { importLines, rename, decls };
   }
 
+  // scopes of their own inside a module: a function body and a namespace that declare / export types
+  // named like what the module imports or declares (nothing of this is visible at module level)
+  const noise = new Map();
+  for (const f of files) {
+    if (f.endsWith(".d.ts")) continue;
+    const names = [...new Set([...texts[f].decls.filter((d) => d.d === "alias" || d.d === "iface").map((d) => d.name), ...[...texts[f].rename.values()].filter((x) => /^[A-Za-z_$][\w$]*$/.test(x))])];
+    const ls = [];
+    if (names.length && rng.chance(0.2)) ls.push(`function noise_${ls.length}() { type ${rng.pick(names)} = number; return 0; }`);
+    if (names.length && rng.chance(0.15)) ls.push(`namespace Noise { export type ${rng.pick(names)} = boolean; export const inner = 1; }`);
+    noise.set(f, ls);
+  }
+
   const out = {};
   for (const f of files) {
     const { importLines, rename, decls } = texts[f];
-    const lines = [...importLines];
+    const lines = [...importLines, ...(noise.get(f) || [])];
     for (const d0 of decls) {
       let d = renameDecl(d0, rename);
       if (collision && collision.original === d.name) d = { ...d, name: collision.as };
@@ -258,7 +270,7 @@ export function splitProgram(prog, rng, { collide = false } = {}) {
     const { importLines, rename, decls } = texts[f];
     const rn = new Map(rename);
     rn.set(collision.original, collision.as);
-    const lines = [...importLines];
+    const lines = [...importLines, ...(noise.get(f) || [])];
     for (const d0 of decls) {
       let d = renameDecl(d0, rn);
       if (collision.original === d.name) d = { ...d, name: collision.as };
